@@ -227,6 +227,108 @@ def translate(pattern, flags=FLAGS, eot_as='epsilon'):
     return L
 
 
+# ---------------------------------------------------------------------------------------------- rules with context
+# A rule with a look-behind at the start of the match and/or single-character look-aheads outside any repetition is a
+# finite union of CONTEXTED BRANCHES (lb, rx, la): the rule matches the text m at a position with the text `left` before
+# it and `right` after it iff for some branch  left in lb,  m in rx,  right in la  (lb / la None = no condition).
+
+def _single_class(tr, p):
+    """ranges of a look-around body that is exactly one character (literal, class, category), else None"""
+    p = list(p)
+    if len(p) != 1:
+        return None
+    op, av = p[0]
+    if op is sre_c.LITERAL:
+        return _merge(tr.lit_ranges(av))
+    if op is sre_c.NOT_LITERAL:
+        return _complement_ranges(_merge(tr.lit_ranges(av)))
+    if op is sre_c.IN:
+        return tr.cls(av)
+    return None
+
+
+def _has_ctx(items):
+    for op, av in items:
+        if op in (sre_c.ASSERT, sre_c.ASSERT_NOT):
+            return True
+        if op is sre_c.BRANCH and any(_has_ctx(list(p)) for p in av[1]):
+            return True
+        if op is sre_c.SUBPATTERN and _has_ctx(list(av[3])):
+            return True
+        if op in (sre_c.MAX_REPEAT, sre_c.MIN_REPEAT) and _has_ctx(list(av[2])):
+            return True
+    return False
+
+
+def _and(a, b):
+    """conjunction of context conditions: tuples of (ranges, negated) on ONE neighbouring character"""
+    return (a or ()) + (b or ()) or None
+
+
+def ctx_holds(cond, neighbour):
+    """does the neighbouring character ('' = none: start / end of the text) satisfy the condition?"""
+    for ranges, neg in cond or ():
+        inside = bool(neighbour) and any(a <= ord(neighbour[0]) <= b for a, b in ranges)
+        if inside == neg:
+            return False
+    return True
+
+
+def _ctx_seq(tr, items, at_start):
+    """contexted branches of the item sequence (the rest of the pattern from here on)"""
+    items = list(items)
+    if not _has_ctx(items):
+        return [(None, tr.seq(items, True), None)]
+    for i, (op, av) in enumerate(items):
+        if op is sre_c.SUBPATTERN and _has_ctx(list(av[3])):
+            if av[1] or av[2]:
+                raise Unsupported('inline flags')
+            # a group is transparent for the language: splice its items in
+            return _ctx_seq(tr, items[:i] + list(av[3]) + items[i + 1:], at_start)
+        if op is sre_c.BRANCH and any(_has_ctx(list(p)) for p in av[1]):
+            out = []
+            for p in av[1]:
+                out += _ctx_seq(tr, items[:i] + list(p) + items[i + 1:], at_start)
+            return out
+        if op in (sre_c.MAX_REPEAT, sre_c.MIN_REPEAT) and _has_ctx(list(av[2])):
+            raise Unsupported('look-around inside a repetition')
+        if op in (sre_c.ASSERT, sre_c.ASSERT_NOT):
+            direction, p = av
+            rs = _single_class(tr, p)
+            if rs is None:
+                raise Unsupported('look-around that is not one character')
+            C = _set_re(rs)
+            neg = op is sre_c.ASSERT_NOT
+            before = items[:i]
+            rest = _ctx_seq(tr, items[i + 1:], at_start and not before)
+            if direction < 0:
+                if before or not at_start:
+                    raise Unsupported('look-behind that is not at the start of the match')
+                lb = ((tuple(rs), neg),)
+                return [(_and(lb, lb2), rx, la) for lb2, rx, la in rest]
+            pre = tr.seq(before, False) if before else None
+            out = []
+            starts = z3.Concat(C, all_strings())
+            for lb2, rx, la in rest:
+                if lb2 is not None:
+                    raise Unsupported('look-behind after a look-ahead')
+                nonempty = z3.Intersect(rx, z3.Plus(any_char()), z3.Complement(starts) if neg else starts)
+                empty = z3.Intersect(rx, z3.Re(z3.StringVal('')))
+                la_e = _and(la, ((tuple(rs), neg),))
+                for r2, l2 in ((nonempty, la), (empty, la_e)):
+                    out.append((None, z3.Concat(pre, r2) if pre is not None else r2, l2))
+            return out
+    raise Unsupported('context operator not found')      # pragma: no cover
+
+
+def translate_ctx(pattern, flags=FLAGS):
+    """list of contexted branches (lb, rx, la) of the rule; a rule without look-arounds has the single branch
+    (None, language, None)"""
+    tree = sre_parse.parse(pattern, flags)
+    tr = _Tr(flags)
+    return _ctx_seq(tr, list(tree), True)
+
+
 def any_char():
     return _set_re([(0, MAXCP)])
 
@@ -243,12 +345,74 @@ def lit(s):
     return z3.Re(z3.StringVal(s))
 
 
+class _Model:
+    """string values of a model found in a child process"""
+
+    def __init__(self, vals):
+        self.vals = vals
+
+    def eval(self, v, model_completion=True):
+        return z3.StringVal(self.vals.get(str(v), ''))
+
+
+def _decode(raw):
+    return re.sub(r'\\u\{([0-9a-fA-F]+)\}', lambda k: chr(int(k.group(1), 16)), raw)
+
+
 def decide_empty(constraints, timeout_ms=20000):
-    """(verdict, model): 'unsat' when no strings satisfy the constraints"""
-    s = z3.Solver()
-    s.set('timeout', timeout_ms)
-    s.add(*constraints)
-    r = s.check()
-    if r == z3.sat:
-        return 'sat', s.model()
-    return ('unsat' if r == z3.unsat else 'unknown'), None
+    """(verdict, model): 'unsat' when no strings satisfy the constraints.  The check runs in a forked child that is
+    killed after the budget (z3's own timeout is not honoured inside some regex preprocessing steps)."""
+    import os
+    import pickle
+    import select
+    import signal
+    rfd, wfd = os.pipe()
+    pid = os.fork()
+    if pid == 0:
+        try:
+            os.close(rfd)
+            sv = z3.Solver()
+            sv.set('timeout', timeout_ms)
+            sv.add(*constraints)
+            r = sv.check()
+            if r == z3.sat:
+                m = sv.model()
+                vals = {}
+                for d in m.decls():
+                    try:
+                        vals[d.name()] = _decode(m[d].as_string())
+                    except Exception:       # noqa: BLE001
+                        pass
+                payload = ('sat', vals)
+            else:
+                payload = ('unsat' if r == z3.unsat else 'unknown', None)
+            os.write(wfd, pickle.dumps(payload))
+        finally:
+            os._exit(0)
+    os.close(wfd)
+    data = b''
+    try:
+        ready, _, _ = select.select([rfd], [], [], timeout_ms / 1000.0 + 5)
+        if ready:
+            while True:
+                chunk = os.read(rfd, 65536)
+                if not chunk:
+                    break
+                data += chunk
+    finally:
+        os.close(rfd)
+        try:
+            os.kill(pid, signal.SIGKILL)
+        except OSError:
+            pass
+        os.waitpid(pid, 0)
+    if not data:
+        return 'unknown', None
+    v, vals = pickle.loads(data)
+    return v, (_Model(vals) if vals is not None else None)
+
+
+def accepts(rx, text):
+    """is the concrete text in the language? (decided by z3 on a ground formula)"""
+    v, _ = decide_empty([z3.InRe(z3.StringVal(text), rx)], 5000)
+    return v == 'sat'
